@@ -951,7 +951,7 @@ class Part(object):
         i = np.searchsorted(self._points, tp)
         if self._points[i] == tp:
             self._points = np.delete(self._points, i)
-            if i > 0:
+            if 0 < i < len(self._points):
                 self._points[i - 1].next = self._points[i]
                 self._points[i].prev = self._points[i - 1]
             if i < len(self._points) - 1:
